@@ -1,149 +1,93 @@
-import RbV.Model.LFMap
-import RbV.Model.Occ
-/-
-Mirror model of `SuffixArray::sample` / `SampledSuffixArray::get` (C03 [C]) for texts whose last symbol is their
-unique smallest symbol, and the theorem `sampled_get_correct`: `get(i) = sa[i]` for every row, every sampling rate
-`s ≥ 1` and every exact `less`/`Occ` (in particular `lessModel` and `occGet ∘ occNewLoop` for every `k ≥ 1`).
+import RbV.Model.LFMapping
+/-!
+# Mirror model of `SampledSuffixArray::get` (C05: "positions resolved through a sampled suffix array")
 
+```rust
+if index < self.len() {
+    let mut pos = index; let mut offset = 0;
+    loop {
+        if pos % self.s == 0 { return Some(self.sample[pos / self.s] + offset); }
+        let c = self.bwt.borrow()[pos];
+        if c == self.sentinel { return Some(self.extra_rows[&pos] + offset); }
+        pos = self.less.borrow()[c as usize] + self.occ.borrow().get(self.bwt.borrow(), pos - 1, c);
+        offset += 1;
+    }
+} else { None }
 ```
-loop {
-    if pos % s == 0 { return Some(sample[pos / s] + offset); }
-    let c = bwt[pos];
-    if c == sentinel { return Some(extra_rows[&pos] + offset); }
-    pos = less[c] + occ.get(bwt, pos - 1, c);
-    offset += 1;
-}
-```
-`sample[j] = sa[j·s]`; `extra_rows` maps every unsampled row whose BWT symbol is the sentinel to its `sa` value
-(modelled as a partial function on rows: `none` = key absent = the `HashMap` index would panic).
-Texts with several sentinel occurrences are not covered by the theorem (they are by the correspondence run).
+`sample` holds `sa[i]` for the rows `i` with `i % s == 0` (at index `i / s`), `extra_rows` holds `sa[i]` for the other
+rows whose BWT symbol is the sentinel (`SuffixArray::sample`).  The stored values are modelled by the two lookup
+functions `sampleGet`, `extraGet` together with exactly these two facts as hypotheses.  The unbounded `loop` is given
+fuel `n + 1`; the theorem shows the fuel is never exhausted on a sorted array.
 -/
-namespace RbV.Sampled
-open RbV RbV.Kasai RbV.LF RbV.OccM
+namespace RbV.SampledModel
+open RbV RbV.LF
 
-/-- `sample` vector built by `SuffixArray::sample` -/
-def sampleVec (sa : List Nat) (s : Nat) : List Nat :=
-  ((List.range sa.length).filter (fun i => i % s = 0)).map (fun i => sa.getD i 0)
-
-/-- `extra_rows` as a partial function on rows -/
-def extraRow (bwt sa : List Nat) (s sent : Nat) (i : Nat) : Option Nat :=
-  if i % s ≠ 0 ∧ bwt.getD i 0 = sent then some (sa.getD i 0) else none
-
-/-- the loop of `get` with fuel; `none` = a failed lookup (or fuel exhausted) -/
-def getGo (bwt sa : List Nat) (s sent : Nat) (lessA : List Nat) (occF : Nat → Nat → Nat) :
-    Nat → Nat → Nat → Option Nat
+def getLoop (s : Nat) (bwt : List Nat) (sentinel : Nat) (less : Nat → Nat) (occ : Nat → Nat → Nat)
+    (sampleGet extraGet : Nat → Nat) : Nat → Nat → Nat → Option Nat
   | 0, _, _ => none
-  | f + 1, pos, off =>
-    if pos % s = 0 then ((sampleVec sa s)[pos / s]?).map (· + off)
-    else
-      let c := bwt.getD pos 0
-      if c = sent then (extraRow bwt sa s sent pos).map (· + off)
-      else getGo bwt sa s sent lessA occF f (lessA.getD c 0 + occF (pos - 1) c) (off + 1)
+  | fuel + 1, pos, offset =>
+    if pos % s = 0 then some (sampleGet (pos / s) + offset)
+    else if bwt.getD pos 0 = sentinel then some (extraGet pos + offset)
+    else getLoop s bwt sentinel less occ sampleGet extraGet fuel
+      (less (bwt.getD pos 0) + occ (pos - 1) (bwt.getD pos 0)) (offset + 1)
 
-def sampledGet (bwt sa : List Nat) (s sent : Nat) (lessA : List Nat) (occF : Nat → Nat → Nat) (i : Nat) :
-    Option Nat :=
-  if i < bwt.length then getGo bwt sa s sent lessA occF (bwt.length + 1) i 0 else none
+def get (s : Nat) (bwt : List Nat) (sentinel : Nat) (less : Nat → Nat) (occ : Nat → Nat → Nat)
+    (sampleGet extraGet : Nat → Nat) (n index : Nat) : Option Nat :=
+  if index < n then getLoop s bwt sentinel less occ sampleGet extraGet (n + 1) index 0 else none
 
-theorem sampleVec_getElem? (sa : List Nat) (s : Nat) (hs : 0 < s) (pos : Nat) (hp : pos < sa.length)
-    (hm : pos % s = 0) : (sampleVec sa s)[pos / s]? = some (sa.getD pos 0) := by
-  unfold sampleVec
-  rw [filter_range_mod _ _ hs, List.map_map, List.getElem?_map]
-  have hlt : pos / s < (sa.length + s - 1) / s := by
-    rw [Nat.lt_div_iff_mul_lt hs, Nat.div_mul_cancel (Nat.dvd_of_mod_eq_zero hm)]
-    omega
-  rw [List.getElem?_range hlt]
-  simp only [Option.map_some, Function.comp, Nat.div_mul_cancel (Nat.dvd_of_mod_eq_zero hm)]
-
-theorem getGo_correct (t sa : List Nat) (h : Sorted t sa) (hsg : Single t) (s : Nat) (hs : 0 < s)
-    (m : Nat) (hm : ∀ x ∈ t, x < m) (lessA : List Nat) (occF : Nat → Nat → Nat)
-    (hless : ∀ c, c < m → lessA[c]? = some (lessRef (bwtRef t sa) c))
-    (hocc : ∀ r c, r < t.length → occF r c = occRef (bwtRef t sa) r c) :
-    ∀ (f pos off : Nat), pos < t.length → sa.getD pos 0 < f →
-      getGo (bwtRef t sa) sa s (t.getD (t.length - 1) 0) lessA occF f pos off = some (sa.getD pos 0 + off) := by
-  intro f
-  induction f with
-  | zero => intro pos off _ hf; omega
-  | succ f ih =>
-    intro pos off hpos hf
-    have hbl := length_bwtRef t sa h
-    simp only [getGo]
-    by_cases hmod : pos % s = 0
-    · rw [if_pos hmod, sampleVec_getElem? sa s hs pos (by rw [h.length]; exact hpos) hmod]; rfl
-    · rw [if_neg hmod]
-      have hb := bwtRef_getD t sa h pos hpos
-      have hp := h.getD_lt pos hpos
-      by_cases hc : (bwtRef t sa).getD pos 0 = t.getD (t.length - 1) 0
-      · -- the BWT symbol is the sentinel: this is the row of position 0, cached in `extra_rows`
-        rw [if_pos hc]
-        unfold extraRow
-        rw [if_pos ⟨hmod, hc⟩]; rfl
-      · rw [if_neg hc]
-        -- sa[pos] ≥ 1, otherwise the BWT symbol would be the final sentinel
-        have hp1 : 1 ≤ sa.getD pos 0 := by
-          apply Nat.pos_of_ne_zero
-          intro hz
-          rw [hz, cpred_zero _ hsg.pos] at hb
-          exact hc hb
+theorem getLoop_correct (t sa : List Nat) (s : Nat) (sampleGet extraGet : Nat → Nat)
+    (hsorted : ∀ a, a ≠ t.getD (t.length - 1) 0 → Sorted t sa a)
+    (hperm : sa.Perm (List.range t.length))
+    (hsample : ∀ pos, pos < sa.length → pos % s = 0 → sampleGet (pos / s) = sa.getD pos 0)
+    (hextra : ∀ pos, pos < sa.length → pos % s ≠ 0 → (bwtOf t sa).getD pos 0 = t.getD (t.length - 1) 0 →
+      extraGet pos = sa.getD pos 0) :
+    ∀ fuel pos offset, pos < sa.length → sa.getD pos 0 < fuel →
+      getLoop s (bwtOf t sa) (t.getD (t.length - 1) 0) (lessRef (bwtOf t sa)) (occRef (bwtOf t sa))
+        sampleGet extraGet fuel pos offset = some (sa.getD pos 0 + offset) := by
+  intro fuel
+  induction fuel with
+  | zero => intro pos offset _ h; omega
+  | succ fuel ih =>
+    intro pos offset hpos hfuel
+    simp only [getLoop]
+    by_cases h0 : pos % s = 0
+    · rw [if_pos h0, hsample pos hpos h0]
+    · rw [if_neg h0]
+      by_cases hsent : (bwtOf t sa).getD pos 0 = t.getD (t.length - 1) 0
+      · rw [if_pos hsent, hextra pos hpos h0 hsent]
+      · rw [if_neg hsent]
+        -- one LF step
+        have hs := hsorted _ hsent
+        have hb := bwt_getD (t := t) pos hpos
+        obtain ⟨p, hp1, hpa⟩ := bwSym_eq_a hs (sa.getD pos 0) hb.symm
+        have hpl : p < t.length := by have := sa_lt hperm pos hpos; omega
+        obtain ⟨x, hx, hex⟩ := sa_surj hperm p hpl
+        have hlf := lf_mapping hs x pos hx hpos (by rw [hex]; exact hpa) (by rw [hex]; exact hp1)
         have hpos1 : 1 ≤ pos := by
-          apply Nat.pos_of_ne_zero
-          intro hz; rw [hz] at hmod; simp at hmod
-        have hcm : (bwtRef t sa).getD pos 0 < m := by
-          rw [hb]
-          have : t.getD (cpred t.length (sa.getD pos 0)) 0 ∈ t := by
-            have hl := cpred_lt t.length (sa.getD pos 0) hsg.pos
-            rw [List.getD_eq_getElem?_getD, List.getElem?_eq_getElem hl]
-            exact List.getElem_mem hl
-          exact hm _ this
-        -- the next row is LF(pos)
-        have hnext : lessA.getD ((bwtRef t sa).getD pos 0) 0 + occF (pos - 1) ((bwtRef t sa).getD pos 0) =
-            sa.idxOf (cpred t.length (sa.getD pos 0)) := by
-          rw [← lf_mapping t sa h hsg pos hpos]
-          unfold lfRef
-          rw [List.getD_eq_getElem?_getD, hless _ hcm, hocc _ _ (by omega)]
-          have e1 := occRef_row (bwtRef t sa) pos (by rw [hbl]; exact hpos)
-          have e2 : occRef (bwtRef t sa) (pos - 1) ((bwtRef t sa).getD pos 0) =
-              ((bwtRef t sa).take pos).count ((bwtRef t sa).getD pos 0) := by
-            unfold occRef
-            have : pos - 1 + 1 = pos := by omega
-            rw [this]
-          rw [e1, e2]
-          simp only [Option.getD_some]
-          omega
-        rw [hnext]
-        have hcp : cpred t.length (sa.getD pos 0) = sa.getD pos 0 - 1 := by
-          have := cpred_succ t.length (sa.getD pos 0 - 1) (by omega)
-          have e : sa.getD pos 0 - 1 + 1 = sa.getD pos 0 := by omega
-          rwa [e] at this
-        have hcl : sa.getD pos 0 - 1 < t.length := by omega
-        have hr := h.rank_lt _ hcl
-        rw [h.length] at hr
-        rw [hcp, ih _ (off + 1) hr (by rw [h.getD_rank _ hcl]; omega), h.getD_rank _ hcl]
+          cases pos with
+          | zero => simp at h0
+          | succ k => omega
+        have hocc : occRef (bwtOf t sa) (pos - 1) ((bwtOf t sa).getD pos 0) =
+            occLt (bwtOf t sa) pos ((bwtOf t sa).getD pos 0) := by
+          unfold occRef occLt; congr 2; omega
+        rw [hocc, ← hlf, ih x (offset + 1) hx (by rw [hex]; omega), hex, hp1]
         congr 1; omega
 
-/-- **`SampledSuffixArray::get(i) = sa[i]`** for every row, every sampling rate, with the exact `less`/`Occ`. -/
-theorem sampled_get_correct (t sa : List Nat) (h : Sorted t sa) (hsg : Single t) (s : Nat) (hs : 0 < s)
-    (m : Nat) (hm : ∀ x ∈ t, x < m) (lessA : List Nat) (occF : Nat → Nat → Nat)
-    (hless : ∀ c, c < m → lessA[c]? = some (lessRef (bwtRef t sa) c))
-    (hocc : ∀ r c, r < t.length → occF r c = occRef (bwtRef t sa) r c)
-    (i : Nat) (hi : i < t.length) :
-    sampledGet (bwtRef t sa) sa s (t.getD (t.length - 1) 0) lessA occF i = some (sa.getD i 0) := by
-  unfold sampledGet
-  have hbl := length_bwtRef t sa h
-  rw [if_pos (by rw [hbl]; exact hi), hbl,
-    getGo_correct t sa h hsg s hs m hm lessA occF hless hocc (t.length + 1) i 0 hi
-      (by have := h.getD_lt i hi; omega)]
-  rfl
+/-- **`SampledSuffixArray::get` returns `sa[index]`** on every sorted array, for every sampling rate, as long as the
+stored samples and extra rows hold what `SuffixArray::sample` puts there. -/
+theorem get_correct (t sa : List Nat) (s : Nat) (sampleGet extraGet : Nat → Nat)
+    (hsorted : ∀ a, a ≠ t.getD (t.length - 1) 0 → Sorted t sa a)
+    (hperm : sa.Perm (List.range t.length))
+    (hsample : ∀ pos, pos < sa.length → pos % s = 0 → sampleGet (pos / s) = sa.getD pos 0)
+    (hextra : ∀ pos, pos < sa.length → pos % s ≠ 0 → (bwtOf t sa).getD pos 0 = t.getD (t.length - 1) 0 →
+      extraGet pos = sa.getD pos 0)
+    (index : Nat) (hi : index < sa.length) :
+    get s (bwtOf t sa) (t.getD (t.length - 1) 0) (lessRef (bwtOf t sa)) (occRef (bwtOf t sa))
+      sampleGet extraGet sa.length index = some (sa.getD index 0) := by
+  unfold get
+  rw [if_pos hi]
+  have := getLoop_correct t sa s sampleGet extraGet hsorted hperm hsample hextra (sa.length + 1) index 0 hi
+    (by have := sa_lt hperm index hi; have := sa_length hperm; omega)
+  simpa using this
 
-/-- … in particular with the mirror models of `less()` and of `Occ::new` / `Occ::get`, for every `k ≥ 1` -/
-theorem sampled_get_correct_models (t sa : List Nat) (h : Sorted t sa) (hsg : Single t) (s k : Nat)
-    (hs : 0 < s) (hk : 0 < k) (m : Nat) (hm : ∀ x ∈ t, x < m) (i : Nat) (hi : i < t.length) :
-    sampledGet (bwtRef t sa) sa s (t.getD (t.length - 1) 0) (lessModel (bwtRef t sa) m)
-      (fun r c => occGet (occNewLoop (bwtRef t sa) k c) (bwtRef t sa) k r c) i = some (sa.getD i 0) := by
-  apply sampled_get_correct t sa h hsg s hs m hm
-  · intro c hc; exact less_eq _ m c hc
-  · intro r c hr
-    rw [occNewLoop_eq _ k c hk]
-    exact occ_get_eq _ k r c hk (by rw [length_bwtRef t sa h]; exact hr)
-  · exact hi
-
-end RbV.Sampled
+end RbV.SampledModel
